@@ -673,6 +673,9 @@ def posify_index(shape, ind):
             return ind
     if isinstance(ind, (np.ndarray, list)) and not math.isnan(shape):
         ind = np.asanyarray(ind)
+        if ind.dtype.kind in "iu" and ind.dtype.itemsize < np.dtype(np.intp).itemsize:
+            # the axis length need not be representable in a narrow index dtype
+            ind = ind.astype(np.intp)
         return np.where(ind < 0, ind + shape, ind)
     return ind
 
